@@ -14,8 +14,9 @@ implementation.
 import itertools, json, os, re, shutil, socket
 import vlib, session
 
-REQUIRED = ['rcpt_outcome_spec', 'setting_inheritance', 'checkconfig_spec', 'getfile_level_order',
-            'first_hard_decision_wins', 'settings_read_from_loaded_config']
+REQUIRED = ['gen_constants', 'rcpt_outcome_spec', 'first_hard_decision_wins', 'no_hard_decision', 'setting_inheritance',
+            'setting_inheritance_raw', 'checkconfig_spec', 'getfile_level_order', 'settings_read_from_loaded_config',
+            'outcome_documented', 'no_crash']
 
 LOCAL = 'example.org'
 IP4 = '::ffff:192.0.2.24'
@@ -282,7 +283,7 @@ def model_canon(out):
     return ' '.join(p)
 
 
-def run_cases(ctx, binary, name, lines, keep_dirs=False):
+def run_cases(ctx, binary, name, lines, keep_dirs=False, trace=False):
     """returns list of (line, impl, model, pred)"""
     ds = [parse_case(l) for l in lines]
     scs = [scenario_of(d) for d in ds]
@@ -306,13 +307,17 @@ def run_cases(ctx, binary, name, lines, keep_dirs=False):
     model = ['-'] * len(lines); pred = ['-'] * len(lines)
     for i, a, b in zip(idx, mo, po):
         model[i] = model_canon(a); pred[i] = b
+    if trace and ctx.driver:
+        for out in vlib.run_batch(ctx.driver, ['rcpt_trace ' + mlines[i][5:] for i in idx]):
+            for tok in out.split():
+                ctx.count('answer:' + tok)
     return list(zip(lines, impl, model, pred))
 
 
 def evaluate(ctx, binary, name, lines, known_class=None):
     import time
     t = time.time()
-    rows = run_cases(ctx, binary, name, lines)
+    rows = run_cases(ctx, binary, name, lines, trace=name in ('filter-positions', 'file-levels', 'corpus'))
     dis, fails = [], []
     seen = set()
     for line, impl, model, pred in rows:
@@ -405,9 +410,9 @@ def gen_settings(ctx, full):
             lv = ['U', 'D', 'G'] if kind == 'dir' else ['D', 'G']
             combos = list(itertools.product(VALUES, repeat=len(lv)))
             if not full and kind == 'qmail':
-                combos = rng.sample(combos, 12)
-            elif not full and key not in ('fail_hard_on_temp', 'nonexist_on_block', 'whitelistauth', 'usersize'):
-                combos = rng.sample(combos, 60)
+                combos = rng.sample(combos, 8)
+            elif not full and key not in ('fail_hard_on_temp', 'nonexist_on_block', 'whitelistauth'):
+                combos = rng.sample(combos, 36)
             for combo in combos:
                 c = Case('set-%s' % key, kind)
                 trigger(c, key, rng)
@@ -490,6 +495,8 @@ def gen_positions(ctx, n):
         ip = rng.choice([IP4, IP4, IP6])
         frm = rng.choice(SENDERS)
         helo = rng.choice(HELOS)
+        if helo == b'joe.example' and rng.random() < 0.6:
+            frm = b'joe@fail.example'
         c.set(ip=ip, helo=helo, ehlo=rng.choice([1, 1, 0]), size=rng.choice([-1, -1, 1, 5, 1000]), rspace=int(rng.random() < 0.15),
               mspace=int(rng.random() < 0.1), **{'from': frm})
         if c.d['ehlo'] and rng.random() < 0.2:
@@ -524,7 +531,7 @@ def gen_positions(ctx, n):
         if maybe(0.15):
             c.setting(L(), 'usersize=%s' % rng.choice(['1', '4', '5', '999', '1000', '0', '-1', 'x'])); tags.append('usz')
         # 4 soberg
-        if maybe(0.1):
+        if maybe(0.1) or (helo == b'joe.example' and maybe(0.5)):
             c.setting(L(), 'block_SoberG'); tags.append('sob')
         # 5 ipbl
         if maybe(0.3):
@@ -642,7 +649,7 @@ def gen_files(ctx, full):
             lv = ['U', 'D', 'G'] if kind == 'dir' else ['D', 'G']
             combos = list(itertools.product(states, repeat=len(lv)))
             if not full:
-                combos = rng.sample(combos, min(len(combos), 80 if kind == 'dir' else 20))
+                combos = rng.sample(combos, min(len(combos), 60 if kind == 'dir' else 15))
             for combo in combos:
                 c = Case('files-' + name, kind)
                 for l, st in zip(lv, combo):
@@ -721,12 +728,12 @@ def run(ctx):
         if lines:
             evaluate(ctx, binary, 'corpus', lines)
         evaluate(ctx, binary, 'settings', gen_settings(ctx, full))
-        evaluate(ctx, binary, 'setting-pairs', gen_pairs(ctx, 6000 if full else 500))
+        evaluate(ctx, binary, 'setting-pairs', gen_pairs(ctx, 6000 if full else 400))
         evaluate(ctx, binary, 'file-levels', gen_files(ctx, full))
-        evaluate(ctx, binary, 'filterconf-syntax', gen_syntax(ctx, 4000 if full else 400))
-        evaluate(ctx, binary, 'filter-positions', gen_positions(ctx, 30000 if full else 1500))
+        evaluate(ctx, binary, 'filterconf-syntax', gen_syntax(ctx, 4000 if full else 300))
+        evaluate(ctx, binary, 'filter-positions', gen_positions(ctx, 20000 if full else 1200))
     if not ctx.quick():
-        vlib.leanchecker(ctx, ['QsmtpModel.Props.C12', 'QsmtpModel.Lemmas.Rcpt'])
+        vlib.leanchecker(ctx, ['QsmtpModel.Props.C12', 'QsmtpModel.Lemmas.Rcpt', 'QsmtpModel.Lemmas.RcptSafe'])
     return vlib.finish(ctx, assumptions=[
         'what the session established before RCPT TO (sender, HELO status, SPF status, MX addresses of the sender, SIZE, authentication) is read from the running server and given to the model as facts; the code that computes it belongs to other properties',
         'DNS answers for the list look-ups (dnsbl, namebl, forceesmtp) are an oracle: the zone of the stub resolver and the model input are generated from the same table',
